@@ -411,6 +411,26 @@ func init() {
 		}
 		return fmt.Sprintf("diff=%d rounds=%d refused=%d accepted=%d first=%s", bad, rounds, refused, acceptedB, firstBad)
 	})
+	// pool.cancelledstart <users> <rounds> — a users pool started on a context that has already ended (a run interrupted
+	// while the pool was being built) must not start a single iteration
+	register("pool.cancelledstart", func(a []string) string {
+		n, rounds := atoi(a[0]), atoi(a[1])
+		total := int64(0)
+		for rd := 0; rd < rounds; rd++ {
+			r := newPoolRigBase(0, false)
+			ctx, cancel := context.WithCancel(context.Background())
+			cancel()
+			cp := r.manager.NewContinuousPool(n)
+			cp.Start(ctx)
+			select {
+			case <-r.manager.WaitForCompletion():
+			case <-time.After(5 * time.Second):
+				return "workers-never-finished"
+			}
+			total += r.started.Load()
+		}
+		return fmt.Sprintf("started=%d", total)
+	})
 	register("pool.stress", func(a []string) string {
 		w, ticks, maxn, rounds := atoi(a[0]), atoi(a[1]), atoi(a[2]), atoi(a[3])
 		for rd := 0; rd < rounds; rd++ {
